@@ -692,7 +692,7 @@ Proof.
         destruct (s_disposed inner) eqn:D; cbn [fst snd].
         -- assert (OK' := OK D).
            destruct (IH inner q' i OK U) as [A B]. split.
-           ++ intros j. rewrite disposes_app, A, OK', disposes_nil. cbn [s_cur ocnt].
+           ++ intros j. rewrite disposes_app, A, OK', disposes_cons, disposes_nil. cbn [s_cur ocnt is_disp].
               change (0 <? S (eff_runs q' t)) with true. cbn iota.
               destruct (0 <? eff_runs q' t); reflexivity.
            ++ rewrite B, D. reflexivity.
@@ -700,7 +700,7 @@ Proof.
            assert (forall j, ocnt j (s_cur (SState None true)) <= (if Nat.eqb j i then 1 else 0)) as U2
              by (intros j; cbn; lia).
            destruct (IH (SState None true) q' i OK2 U2) as [A B]. split.
-           ++ intros j. rewrite disposes_app, A, disposes_opt_disp. cbn [s_cur ocnt].
+           ++ intros j. rewrite disposes_app, A, disposes_cons, disposes_opt_disp. cbn [s_cur ocnt is_disp].
               change (0 <? S (eff_runs q' t)) with true. cbn iota.
               destruct (0 <? eff_runs q' t); lia.
            ++ rewrite B. change (0 <? S (eff_runs q' t)) with true. cbn [s_disposed orb]. reflexivity.
@@ -769,6 +769,8 @@ Definition r_ok (s : rstate) : Prop :=
 
 Lemma live_app : forall a b, live (a ++ b) = live a + live b.
 Proof. intros. unfold live. rewrite filter_app, app_length. reflexivity. Qed.
+Lemma live_nil : live [] = 0.
+Proof. reflexivity. Qed.
 Lemma live_cons : forall d l, live (d :: l) = b2n (is_live d) + live l.
 Proof. intros. unfold live. cbn [filter]. destruct (is_live d); reflexivity. Qed.
 
@@ -847,10 +849,10 @@ Proof.
   intros [c p d deps] o [Hc Hd]. cbn [r_count r_primary r_disposed r_deps] in *.
   destruct o as [|k| |]; cbn [r_step r_count r_primary r_disposed r_deps].
   - destruct d; cbn [fst]; unfold r_ok; cbn [r_count r_primary r_disposed r_deps];
-      rewrite live_app, live_cons; cbn [is_live b2n live filter length].
-    + split; [unfold live at 2; cbn; lia|]. destruct Hd as [H1 H2]. destruct (H1 eq_refl) as [P L].
-      split; [intros _; split; [exact P|unfold live at 2; cbn; lia]|reflexivity].
-    + split; [unfold live at 2; cbn; lia|]. split; [discriminate|]. intros [_ L]. unfold live at 2 in L. cbn in L. lia.
+      rewrite live_app, live_cons, live_nil; cbn [is_live b2n].
+    + split; [lia|]. destruct Hd as [H1 H2]. destruct (H1 eq_refl) as [P L].
+      split; [intros _; split; [exact P|lia]|reflexivity].
+    + split; [lia|]. split; [discriminate|]. intros [_ L]. lia.
   - destruct (nth_error deps k) as [[[|]|b]|] eqn:N; cbn [fst]; try (split; assumption).
     + pose proof (live_set_nth deps k _ (DInner false) N) as LS. cbn [is_live b2n] in LS.
       assert (d = false) as D.
@@ -898,16 +900,16 @@ Proof.
     assert (c = Z.of_nat (S (live (set_nth k (DInner false) deps))))%Z as C by lia.
     destruct (r_release_spec c p d (set_nth k (DInner false) deps) D C) as [_ [_ [_ [R4 R5]]]].
     rewrite R4, R5. subst d.
-    destruct (p && (live (set_nth k (DInner false) deps) =? 0))%bool; split; try reflexivity.
-    + intros j Hj. rewrite disposes_cons, disposes_nil. cbn [is_disp].
+    destruct (p && (live (set_nth k (DInner false) deps) =? 0))%bool.
+    + split; [reflexivity|]. intros j Hj. rewrite disposes_cons, disposes_nil. cbn [is_disp].
       destruct (Nat.eqb j underlying) eqn:E; [apply Nat.eqb_eq in E; contradiction|reflexivity].
-    + intros; reflexivity.
+    + split; [reflexivity|]. intros; reflexivity.
   - destruct d eqn:D; cbn [fst snd r_disposed]; [split; [reflexivity|intros; reflexivity]|].
     destruct p eqn:P; cbn [fst snd r_disposed]; [split; [reflexivity|intros; reflexivity]|].
-    destruct (c =? 0)%Z; cbn [fst snd r_disposed]; split; try reflexivity.
-    + intros j Hj. rewrite disposes_cons, disposes_nil. cbn [is_disp].
+    destruct (c =? 0)%Z; cbn [fst snd r_disposed].
+    + split; [reflexivity|]. intros j Hj. rewrite disposes_cons, disposes_nil. cbn [is_disp].
       destruct (Nat.eqb j underlying) eqn:E; [apply Nat.eqb_eq in E; contradiction|reflexivity].
-    + intros; reflexivity.
+    + split; [reflexivity|]. intros; reflexivity.
   - cbn [fst snd]. split; [destruct d; reflexivity|intros; reflexivity].
 Qed.
 
@@ -1055,8 +1057,8 @@ Qed.
 Lemma r_disposed_sticky1 : forall s o, r_disposed s = true -> r_disposed (fst (r_step s o)) = true.
 Proof.
   intros s o H. destruct o as [|k| |]; cbn [r_step]; rewrite ?H; cbn [fst r_disposed]; auto.
-  destruct (nth_error (r_deps s) k) as [[[|]|b]|]; cbn [fst r_disposed]; auto.
-  apply r_release_disposed_mono. exact H.
+  destruct (nth_error (r_deps s) k) as [[[|]|b]|]; cbn [fst r_disposed]; auto;
+    try (apply r_release_disposed_mono; exact H).
 Qed.
 
 (* a handle created during h: by which RGet, and what state the object was in at that moment *)
@@ -1143,7 +1145,7 @@ Proof.
   pose proof (r_final_ok h r_init r_init_ok) as [_ [_ H2]].
   destruct (r_disposed (final r_step r_init h)) eqn:D; [reflexivity|]. exfalso.
   assert (live (r_deps (final r_step r_init h)) <> 0) as L.
-  { intros L0. assert (true = false) as X; [|discriminate X]. rewrite <- D. symmetry. apply H2. split; [|exact L0].
+  { intros L0. assert (false = true) as X; [|discriminate X]. apply H2. split; [|exact L0].
     rewrite (r_primary_gen h r_init r_init_ok). exact P. }
   destruct (live_pos_nth _ L) as [k N].
   destruct (r_created h r_init k _ (Nat.le_0_l _) N) as [h1 [h2 [E [G Dd]]]]. cbn [r_init r_deps length] in G.
@@ -1187,4 +1189,17 @@ Lemma rc_second_dispose_erasable : forall h k h',
 Proof.
   intros h k h' W D. pose proof (rc_second_dispose_noop h k W D) as N.
   rewrite !log_app, !final_app, log_cons, final_cons, N. cbn [fst snd app]. split; reflexivity.
+Qed.
+
+(* the scheduler invoked exactly [eff_runs] queued actions (observable: ORun) *)
+Lemma scheduled_runs : forall h s, runs (log sch_step s h) = eff_runs (sch_queue s) h.
+Proof.
+  induction h as [|o t IH]; intros s; [reflexivity|].
+  rewrite log_cons, runs_app, IH. destruct s as [inner q]. destruct o; cbn [sch_step eff_runs sch_queue sch_inner].
+  - reflexivity.
+  - destruct q as [|q']; cbn [fst snd sch_queue]; [reflexivity|].
+    cbn [sad_step]. unfold slot_dispose. destruct (s_disposed inner); cbn [fst snd sch_queue].
+    + reflexivity.
+    + unfold runs at 1. cbn [filter is_run]. destruct (s_cur inner); reflexivity.
+  - reflexivity.
 Qed.
